@@ -4,7 +4,9 @@
  *   run <algo> <cap> <k> <d> <steps> <spnum> <spsh> <f> <accel> <nbThreads> <shrink> <level> <dictID> <selectivity>
  *       <ckind> <cseed> <csize> <nb> <kind> <seed> <size>...
  *
- * algo: default | cover | fastcover | optcover | optfast | legacy | finalize | addentropy, optionally followed by
+ * algo: default | cover | fastcover | optcover | optfast | legacy | finalize | addentropy
+ *       | many-cover | many-fastcover | many-optcover | many-default (2^32-1 samples) | lazy-finalize | lazy-addentropy
+ *       (content of csize bytes in a lazy mapping) | xl-legacy (trailing sample of csize bytes), optionally followed by
  *       "@<n>" = ZDICT_params_t.notificationLevel n (the library then writes progress text to stderr)
  * capacities above C18_LAZY_CAP are served by an untouched MAP_NORESERVE mapping (no fill, no guard band, no second run)
  * result: ERR:<name> | NODICT | DICT size= id= ids= cdict= ddict= rt= det= guard= hash= k= d=  | CRASH ...      */
@@ -13,6 +15,7 @@
 #define ZSTD_STATIC_LINKING_ONLY
 #include "zdict.h"
 #include "zstd.h"
+#include "zstd_errors.h"
 #include "c18_gen.h"
 #include <math.h>
 #include <signal.h>
@@ -20,6 +23,7 @@
 #include <unistd.h>
 #include <fcntl.h>
 #include <sys/mman.h>
+#include <sys/resource.h>
 
 #define MAXTOK 70000
 #define GUARD 64
@@ -68,6 +72,69 @@ static size_t train(const ocase* c, unsigned char* dict, const c18_samples* s, u
         if (c->csize <= c->cap) c18_fill(dict + c->cap - c->csize, c->csize, c->ckind, c->cseed, 0);
         return ZDICT_addEntropyTablesFromBuffer(dict, c->csize, c->cap, s->buf, s->sizes, s->nb);
     }
+    /* ---- round 3: inputs at the top of the integer types (the sample set of the line is only the non-empty head) ---- */
+    if (!strncmp(c->algo, "many-", 5)) {
+        /* nbSamples = 2^32-1: the samples of the line, followed by EMPTY samples (sizes[] is an untouched lazy mapping).
+         * The offsets table of the cover trainers then has 2^32 entries = 32 GiB: the address space of this child is capped,
+         * so the repaired code ends in memory_allocation (ASan builds: max_allocation_size_mb in ASAN_OPTIONS) */
+        unsigned const nb = 0xFFFFFFFFu; size_t const bytes = ((size_t)nb + 2) * sizeof(size_t); size_t r;
+        size_t* sizes = (size_t*)mmap(NULL, bytes, PROT_READ | PROT_WRITE, MAP_PRIVATE | MAP_ANONYMOUS | MAP_NORESERVE, -1, 0);
+        const char* inner = c->algo + 5;
+        if (sizes == (size_t*)MAP_FAILED) return (size_t)-ZSTD_error_memory_allocation;
+#ifdef MADV_HUGEPAGE
+        madvise(sizes, bytes, MADV_HUGEPAGE);      /* read faults map the huge zero page: 16 K faults instead of 8 M */
+#endif
+        memcpy(sizes, s->sizes, s->nb * sizeof(size_t));
+#if !defined(__SANITIZE_ADDRESS__) && !defined(__SANITIZE_THREAD__)
+        {   struct rlimit rl; rl.rlim_cur = rl.rlim_max = (rlim_t)44 << 30; setrlimit(RLIMIT_AS, &rl); }
+#endif
+        if (!strcmp(inner, "cover")) { ZDICT_cover_params_t p; memset(&p, 0, sizeof p); p.k = c->k; p.d = c->d;
+            r = ZDICT_trainFromBuffer_cover(dict, c->cap, s->buf, sizes, nb, p); }
+        else if (!strcmp(inner, "fastcover")) { ZDICT_fastCover_params_t p; memset(&p, 0, sizeof p); p.k = c->k; p.d = c->d; p.f = c->f; p.accel = c->accel;
+            r = ZDICT_trainFromBuffer_fastCover(dict, c->cap, s->buf, sizes, nb, p); }
+        else if (!strcmp(inner, "optcover")) { ZDICT_cover_params_t p; memset(&p, 0, sizeof p); p.k = c->k; p.d = c->d; p.steps = c->steps; p.splitPoint = c->sp;
+            r = ZDICT_optimizeTrainFromBuffer_cover(dict, c->cap, s->buf, sizes, nb, &p); }
+        else r = ZDICT_trainFromBuffer(dict, c->cap, s->buf, sizes, nb);
+        munmap(sizes, bytes);
+        return r;
+    }
+    if (!strcmp(c->algo, "lazy-finalize") || !strcmp(c->algo, "lazy-addentropy")) {
+        /* custom content of c->csize bytes served by an untouched lazy mapping (zeros, last 4000 bytes text):
+         * sizes around 2^31 - 128 KB and 2^32 - 128 KB (ZDICT_analyzeEntropy narrows dictSize + 128 KB to U32) */
+        ZDICT_params_t p; size_t r; size_t const tail = c->csize < 4000 ? c->csize : 4000;
+        memset(&p, 0, sizeof p); p.compressionLevel = c->level; p.dictID = c->dictID; p.notificationLevel = c->notif;
+        if (!strcmp(c->algo, "lazy-finalize")) {
+            unsigned char* content = (unsigned char*)mmap(NULL, c->csize + 4096, PROT_READ | PROT_WRITE, MAP_PRIVATE | MAP_ANONYMOUS | MAP_NORESERVE, -1, 0);
+            if (content == (unsigned char*)MAP_FAILED) return (size_t)-ZSTD_error_memory_allocation;
+            c18_fill(content + c->csize - tail, tail, 3, c->cseed, 0);
+            r = ZDICT_finalizeDictionary(dict, c->cap, content, c->csize, s->buf, s->sizes, s->nb, p);
+            munmap(content, c->csize + 4096);
+        } else {
+            if (c->csize > c->cap) return (size_t)-ZSTD_error_dstSize_tooSmall;
+            c18_fill(dict + c->cap - tail, tail, 3, c->cseed, 0);
+            r = ZDICT_addEntropyTablesFromBuffer(dict, c->csize, c->cap, s->buf, s->sizes, s->nb);
+        }
+        return r;
+    }
+    if (!strcmp(c->algo, "xl-legacy")) {
+        /* legacy trainer above ZDICT_MAX_SAMPLES_SIZE (thorough tier: the trainer itself touches 2 x 2 GB): the samples of the
+         * line, each starting with the lexicographically greatest 10 bytes, then ONE sample of c->csize bytes whose head is a
+         * copy of sample 0 (rest zeros).  The trailing sample is dropped by the trainer; in the pinned code the sentinels of the
+         * suffix analysis then point at its first bytes instead of the guard band (finding c18-legacy-reduced-set-no-guard) */
+        static const unsigned char marker[10] = { 0xFF, 0xFE, 0xFD, 0xFC, 0xFB, 0xFA, 0xF9, 0xF8, 0xF7, 0xF6 };
+        size_t const total = s->total + c->csize; size_t pos = 0; unsigned u; size_t r; ZDICT_legacy_params_t p;
+        unsigned char* buf = (unsigned char*)mmap(NULL, total + 4096, PROT_READ | PROT_WRITE, MAP_PRIVATE | MAP_ANONYMOUS | MAP_NORESERVE, -1, 0);
+        size_t* sizes = (size_t*)malloc((s->nb + 1) * sizeof(size_t));
+        if (buf == (unsigned char*)MAP_FAILED) return (size_t)-ZSTD_error_memory_allocation;
+        memcpy(buf, s->buf, s->total);
+        for (u = 0; u < s->nb; u++) { if (s->sizes[u] >= 10) memcpy(buf + pos, marker, 10); sizes[u] = s->sizes[u]; pos += s->sizes[u]; }
+        memcpy(buf + s->total, buf, s->sizes[0] < c->csize ? s->sizes[0] : c->csize);
+        sizes[s->nb] = c->csize;
+        memset(&p, 0, sizeof p); p.selectivityLevel = c->selectivity; p.zParams.compressionLevel = c->level; p.zParams.notificationLevel = c->notif;
+        r = ZDICT_trainFromBuffer_legacy(dict, c->cap, buf, sizes, s->nb + 1, p);
+        munmap(buf, total + 4096); free(sizes);
+        return r;
+    }
     return (size_t)-1;
 }
 
@@ -109,8 +176,9 @@ static void run_case(char** t, int n) {
     if (r > c.cap) { printf("DICT size=%zu OVERRUN cap=%zu guard=%d\n", r, c.cap, guardok); goto done; }
     {   unsigned const id0 = ZDICT_getDictID(dict, r);
         unsigned const id1 = ZSTD_getDictID_fromDict(dict, r);
-        ZSTD_CDict* cd = ZSTD_createCDict(dict, r, 3);
-        ZSTD_DDict* dd = ZSTD_createDDict(dict, r);
+        int const huge = r > C18_LAZY_CAP;      /* round 3: dictionaries of GiB size are loaded by reference */
+        ZSTD_CDict* cd = huge ? ZSTD_createCDict_byReference(dict, r, 3) : ZSTD_createCDict(dict, r, 3);
+        ZSTD_DDict* dd = huge ? ZSTD_createDDict_byReference(dict, r) : ZSTD_createDDict(dict, r);
         unsigned const id2 = cd ? ZSTD_getDictID_fromCDict(cd) : 0;
         unsigned const id3 = dd ? ZSTD_getDictID_fromDDict(dd) : 0;
         int rt = -1;   /* -1 ok, else index of the failing sample */
@@ -128,7 +196,7 @@ static void run_case(char** t, int n) {
                     size_t const ds = ZSTD_decompress_usingDDict(dc, ob, sz, cb, cs, dd);
                     if (ZSTD_isError(ds) || ds != sz || (sz && memcmp(ob, s.buf + pos, sz))) rt = (int)u;
                 }
-                if (rt < 0) {   /* second round trip: raw dictionary (both sides reload it), level varies with the sample */
+                if (rt < 0 && !huge) {   /* second round trip: raw dictionary (both sides reload it), level varies with the sample */
                     static const int lv[10] = { -7, 1, 2, 4, 6, 9, 13, 16, 19, 22 };
                     size_t const cs2 = ZSTD_compress_usingDict(cc, cb, bound, s.buf + pos, sz, dict, r, lv[u % 10]);
                     if (ZSTD_isError(cs2)) rt = (int)u;
